@@ -345,16 +345,37 @@ class Lib(object):
             return None
         return variant
 
+    @staticmethod
+    def present(b, rng):
+        """The same octets in one of the documented buffer types: bytes, bytearray, a view of a bytearray, or a READ-ONLY view
+        that is a slice of a larger bytes object (zero-copy parsing of  header || nonce || ct || tag)."""
+        if b is None:
+            return None
+        r = rng.random()
+        if r < 0.55:
+            return b
+        if r < 0.65:
+            return bytearray(b)
+        pre, post = rng.randbytes(rng.choice([0, 1, 7, 16])), rng.randbytes(rng.choice([0, 1, 16, 40]))
+        if r < 0.8:
+            return memoryview(bytearray(pre + b + post))[len(pre):len(pre) + len(b)]
+        return memoryview(pre + b + post)[len(pre):len(pre) + len(b)]
+
     def run(self, path, key, nonce, aad, ct, tag, rng, decoy=None):
         """-> ('ok', plaintext, obj, chunks) | ('exc', exception, obj, chunks)"""
         c = None
         parts = None
         if decoy == "before":
             self.last_decoy = self.decoy(key, nonce, rng)
+        key0, nonce0 = key, nonce
+        if path in ("dav", "dec-verify", "mac-only"):
+            # (the other paths write into / over their input or take text: they keep bytes)
+            P = self.present
+            key, nonce, aad, ct, tag = P(key, rng), P(nonce, rng), [P(a, rng) for a in aad], P(ct, rng), P(tag, rng)
         try:
             c = self.new(key, nonce, sum(len(a) for a in aad), len(ct))
             if decoy == "between":
-                self.last_decoy = self.decoy(key, nonce, rng)
+                self.last_decoy = self.decoy(key0, nonce0, rng)
             for seg in aad:
                 c.update(seg)
             if path == "dav":
